@@ -248,6 +248,37 @@ def _mg_finally():
     raise ShapeError("call_fn_with_tensors: restore discipline not recognised")
 
 
+def _fn_own_frame():
+    """every path by which autograd hands control to the user function is a proper call: klong.call(KGCall(...)) (pushes a frame)
+    or a plain Python call; no klong.call / klong.eval of a bare function body or symbol in the gradient entry points"""
+    def ok_return(r, pyname):
+        v = r.value
+        if not isinstance(v, ast.Call):
+            return False
+        f = v.func
+        if isinstance(f, ast.Name) and f.id == pyname:
+            return True                                            # fn(*args) / b(v): a Python callable
+        if isinstance(f, ast.Attribute) and f.attr == "call" and ast.unparse(f.value) == "klong" and len(v.args) == 1:
+            a = v.args[0]
+            return isinstance(a, ast.Call) and isinstance(a.func, ast.Name) and a.func.id == "KGCall"
+        return False
+    m = astlib.module("klongpy/autograd.py")
+    inv = astlib.find_func(m, "_invoke_fn")
+    rets = [n for n in ast.walk(inv) if isinstance(n, ast.Return)]
+    if not rets or not all(ok_return(r, "fn") for r in rets):
+        return False
+    for name in ("grad_of_fn", "jacobian_of_fn", "multi_jacobian_of_fn", "multi_grad_of_fn"):
+        fn = astlib.find_func(m, name)
+        for n in ast.walk(fn):
+            if isinstance(n, ast.Call) and isinstance(n.func, ast.Attribute) and n.func.attr in ("call", "eval") \
+                    and ast.unparse(n.func.value) == "klong":
+                return False
+    d = astlib.module("klongpy/dyads.py")
+    cf = astlib.find_func_deep(astlib.find_func(d, "eval_dyad_grad"), "call_fn")
+    rets = [n for n in ast.walk(cf) if isinstance(n, ast.Return)]
+    return bool(rets) and all(ok_return(r, "b") for r in rets)
+
+
 def generate():
     out = []
     notes = []
@@ -267,6 +298,7 @@ def generate():
     out.append("Definition grad_func_restores_in_finally : bool := %s." % astlib.coq_bool(bool(flag("eval_dyad_grad.func", _grad_finally))))
     out.append("Definition mg_restores_in_finally : bool := %s." % astlib.coq_bool(bool(flag("call_fn_with_tensors", _mg_finally))))
     out.append("Definition mj_restores_in_finally : bool := %s." % astlib.coq_bool(bool(flag("single_param_fn", _mj_finally))))
+    out.append("Definition fn_invoked_in_own_frame : bool := %s." % astlib.coq_bool(bool(flag("_invoke_fn / call_fn", _fn_own_frame))))
     return "\n".join(out + notes) + "\n"
 
 
@@ -377,7 +409,15 @@ def run_case(case, fault_kind, fault_k):
     # (a conditional directly inside a call argument does not parse in klongpy: go through an inner function)
     k("finner::{:[tick(" + arg + ");" + bad + ";" + good + "]}")
     a1 = "" if case["nilad"] else "x"
-    if case.get("assigns"):
+    for d in case.get("globals", []):
+        k(d)
+    if case.get("own_locals"):
+        # the differentiated function ITSELF declares a local named like an existing global (and, where the form allows, like the
+        # parameter) and assigns it; "direct_unknown": it also refers to an unknown name in its own body, after probe
+        loc = case["own_locals"]
+        tail = "probe(" + loc + ")" + ("+nosuch" if case.get("direct_unknown") else "")
+        k(case["fname"] + "::{[" + loc + "];" + loc + "::finner(" + a1 + ");" + tail + "}")
+    elif case.get("assigns"):
         # the differentiated function itself assigns a global after every evaluation that returns
         k("fmid::{[r];r::finner(" + a1 + ");cnt::cnt+1;r}")
         k(case["fname"] + "::{probe(fmid(" + a1 + "))}")
@@ -420,7 +460,9 @@ def run_case(case, fault_kind, fault_k):
     final2 = snapshot()
     script = []
     for i in range(1, st["n"] + 1):
-        if i in st["outs"]:
+        if case.get("direct_unknown"):
+            script.append(["x", 2])          # the reference to the unknown name after probe makes every evaluation fail
+        elif i in st["outs"]:
             script.append(st["outs"][i])
         elif i == fault_k and fault_kind == "raise":
             script.append(["x", 1])
@@ -553,6 +595,34 @@ def build_cases(backend, tier, rng):
     common = {"params": [["w", ["klong", lit([1.0, 2.0])]], ["b", ["klong", "3.5"]]], "nilad": True, "assigns": True}
     cases.append(dict(common, form="gradmulti", label="flt_fs_assign", expr="f:>[w b]", fname="f", good="(+/w*w)+(+/b*b)", probe_expr="fgood()", faults=["raise", "unknown"]))
     cases.append(dict(common, form="jacmulti", label="flt_fs_assign", expr="[w b]∂f", fname="f", good="(w*w),b*b", probe_expr="fgood()", faults=["raise"]))
+    # the differentiated function ITSELF declares a local that collides with an existing global (e, t) or with the parameter name (p),
+    # or refers to an unknown name in its own body: its evaluation must happen in its own frame (fn_invoked_in_own_frame)
+    own_single = [("intarr", ["klong", lit([1, 2, 3])]), ("fltarr", ["klong", lit([1.0, 2.0, 3.0])]), ("fltscalar", ["klong", "2.5"])]
+    if backend == "torch":
+        own_single.append(("tt_f32", ["tt", ["float32", [1.0, 2.5]]]))
+    G = ["e::[9 9 9]", 't::"keep me"']
+    for label, spec in own_single:
+        for loc in ("e", "p", "t"):
+            common = {"params": [["p", spec]], "nilad": False, "own_locals": loc, "globals": G}
+            cases.append(dict(common, form="gradvar", label=label + "_local_" + loc, expr="f:>p", fname="f", good="+/x*x", probe_expr="fgood(p)", faults=["raise", "vector"]))
+            cases.append(dict(common, form="nablasym", label=label + "_local_" + loc, expr="p∇f", fname="f", good="+/x*x", probe_expr="fgood(p)", faults=["raise", "nonnum"]))
+            cases.append(dict(common, form="jacvar", label=label + "_local_" + loc, expr="p∂f", fname="f", good="x*x", probe_expr="fgood(p)", faults=["raise"]))
+        common = {"params": [["p", spec]], "nilad": False, "own_locals": "e", "globals": G, "direct_unknown": True}
+        cases.append(dict(common, form="gradvar", label=label + "_unknown_in_f", expr="f:>p", fname="f", good="+/x*x", probe_expr="fgood(p)", faults=[]))
+        cases.append(dict(common, form="nablasym", label=label + "_unknown_in_f", expr="p∇f", fname="f", good="+/x*x", probe_expr="fgood(p)", faults=[]))
+        cases.append(dict(common, form="jacvar", label=label + "_unknown_in_f", expr="p∂f", fname="f", good="x*x", probe_expr="fgood(p)", faults=[]))
+    own_multi = [("flt_flt", [["klong", lit([1.0, 2.0])], ["klong", lit([3.0])]]), ("int_intscalar", [["klong", lit([1, 2])], ["klong", "3"]]),
+                 ("fs_fs", [["klong", "2.0"], ["klong", "3.5"]])]
+    if backend == "torch":
+        own_multi.append(("ttf32_fs", [["tt", ["float32", [1.0, 2.0]]], ["klong", "3.5"]]))
+    for label, specs in own_multi:
+        for loc in ("e", "t"):
+            common = {"params": [["w", specs[0]], ["b", specs[1]]], "nilad": True, "own_locals": loc, "globals": G}
+            cases.append(dict(common, form="gradmulti", label=label + "_local_" + loc, expr="f:>[w b]", fname="f", good="(+/w*w)+(+/b*b)", probe_expr="fgood()", faults=["raise", "vector"]))
+            cases.append(dict(common, form="jacmulti", label=label + "_local_" + loc, expr="[w b]∂f", fname="f", good="(w*w),b*b", probe_expr="fgood()", faults=["raise"]))
+        common = {"params": [["w", specs[0]], ["b", specs[1]]], "nilad": True, "own_locals": "e", "globals": G, "direct_unknown": True}
+        cases.append(dict(common, form="gradmulti", label=label + "_unknown_in_f", expr="f:>[w b]", fname="f", good="(+/w*w)+(+/b*b)", probe_expr="fgood()", faults=[]))
+        cases.append(dict(common, form="jacmulti", label=label + "_unknown_in_f", expr="[w b]∂f", fname="f", good="(w*w),b*b", probe_expr="fgood()", faults=[]))
     # nested scopes (property oracle only; the model has one scope): the gradient expression is evaluated inside a Klong function whose
     # locals / arguments are named like globals; observed: all globals before/after, and on success the locals handed back
     g1 = {"params": [["p", ["klong", lit([7.0, 8.0])]]], "nilad": False, "form": "scoped", "fname": "f", "probe_expr": "fgood(p)"}
@@ -834,6 +904,8 @@ def run(tier, replay=None):
                     chk.count("cases_function_assigns_global")
                     if r["ncalls"] and r["extra"]["cnt_after"] != ["int", 100]:
                         chk.count("cases_function_assigned_at_least_once")
+                if case.get("own_locals"):
+                    chk.count("cases_function_declares_colliding_local")
                 if case["form"] == "scoped":
                     chk.count("cases_nested_scope")
                     if "returned" in r["extra"]:
